@@ -24,7 +24,7 @@ func TestVerifBoundedC15(t *testing.T) {
 	}
 
 	// 1. extractor on every error of <= 3 (thorough: 4) clauses; each clause Chinese-labelled, English-labelled or unlabelled
-	pieces := []string{"", "a", "中", "a b", "x:y", "中a"}
+	pieces := []string{"", "a", "中", "a b", "x:y", "中a", "see explain: twice", "格式说明: 年-月"}
 	heads := []string{"\"O.F\" input \"v\", ", "\"F\" input \"\", ", ""}
 	type clause struct {
 		text, exp string
@@ -33,8 +33,13 @@ func TestVerifBoundedC15(t *testing.T) {
 	var clauses []clause
 	for _, h := range heads {
 		for _, p := range pieces {
-			clauses = append(clauses, clause{h + ExplainZh + " " + p, p, true})
-			clauses = append(clauses, clause{h + ExplainEn + " " + p, p, true})
+			// a text that itself contains label wording only appears under the label the library picks for it
+			if !strings.Contains(p, "explain:") {
+				clauses = append(clauses, clause{h + ExplainZh + " " + p, p, true})
+			}
+			if !strings.Contains(p, "说明:") {
+				clauses = append(clauses, clause{h + ExplainEn + " " + p, p, true})
+			}
 		}
 	}
 	clauses = append(clauses, clause{"\"O.F\" valid \"zz\" is not exist, You can call SetValidFn", "", false})
@@ -87,7 +92,7 @@ func TestVerifBoundedC15(t *testing.T) {
 		{"phone", "x"}, {"email", "x"}, {"idcard", "x"}, {"ip", "x"}, {"ipv4", "::1"}, {"ipv6", "1.1.1.1"}, {"year", "x"}, {"year2month", "x"}, {"date", "x"}, {"datetime", "x"},
 		{"int", "x"}, {"ints", "1,x"}, {"float", "x"}, {"in=(a/b)", "c"}, {"include=(a/b)", "c"}, {"unique", "a,a"}, {"json", "{"}, {"prefix=ab", "x"}, {"suffix=ab", "x"},
 		{"file", "/nonexistent/verif"}, {"dir", "/nonexistent/verif"}, {"re='^a$'", "b"}}
-	msgs := []string{"bad", "必填", "mix 中文 ok", "x", "a=b", "'quoted, comma'"}
+	msgs := []string{"bad", "必填", "mix 中文 ok", "x", "a=b", "'quoted, comma'", "see explain: 2 to 4", "格式说明: 年-月-日", "ends with;", "ends with spaces  "}
 	n = 0
 	for _, r := range rules {
 		for _, m := range msgs {
@@ -109,6 +114,24 @@ func TestVerifBoundedC15(t *testing.T) {
 			}
 			if got := GetOnlyExplainErr(err.Error()); got != m {
 				report("message.extract", "GetOnlyExplainErr(%q) = %q, want %q", err.Error(), got, m)
+			}
+		}
+	}
+	// the same message through the other entry points (each has its own error assembly)
+	type one struct{ F string }
+	for _, m := range msgs {
+		n++
+		want := ", " + map[bool]string{true: ExplainZh, false: ExplainEn}[IncludeZhRe.MatchString(m)] + " " + m
+		for name, err := range map[string]error{
+			"Map":    Map(map[string]string{"k": "x"}, NewRule().Set("k", "phone|"+m)),
+			"Struct": Struct(&one{"x"}, NewRule().Set("F", "phone|"+m)),
+			"Url":    Url("h?k=x", NewRule().Set("k", "phone|"+m)),
+			"[]Map":  Map([]map[string]string{{"k": "x"}}, NewRule().Set("k", "phone|"+m)),
+		} {
+			if err == nil || !strings.HasSuffix(err.Error(), want) {
+				report("message", "%s with rule %q returned %v, want the clause to end with %q", name, "phone|"+m, err, want)
+			} else if got := GetOnlyExplainErr(err.Error()); got != m {
+				report("message.extract", "%s: GetOnlyExplainErr(%q) = %q, want %q", name, err.Error(), got, m)
 			}
 		}
 	}
